@@ -552,8 +552,24 @@ def run(ctx):
         op_builtin_dup(ctx, w, t, wrap, famtag)
         SIMFS.listener = sysm._fs
         sysm.register_lang()
-    nops = 2 + t.draw(5, "nops")
     shapes = set()
+    if os.environ.get("VERIF_TIER") == "thorough" and prop in ("C18", "C28"):
+        # fault enumeration: every file of the main file's closure fails in every phase, each on a fresh system
+        F = w.main
+        params = {"project_root": ROOT} if (fam in GR and getattr(w, "gr_relative", False)) else {}
+        for X in new_files(w, F, {}):
+            for kind in CORRUPTIONS:
+                s2 = Sys(ctx, w, t, global_repo, wrap)
+                ok = op_corrupt_cycle(ctx, prop, s2, w, F, params, {}, famtag, global_repo, t, wrap, shapes, "file",
+                                      force=(X, kind))
+                ctx.stats["fault_points_enumerated"] += 1
+                if not ok or ctx.violations:
+                    ctx.sig = [fam, global_repo, "enumeration"]
+                    return
+        ctx.sig = [fam, global_repo, "enumeration", sorted(os.path.relpath(x, ROOT) for x in new_files(w, F, {})),
+                   [fe.text for fe in w.files.values()]]
+        return
+    nops = 2 + t.draw(5, "nops")
     for opi in range(nops):
         F = t.pick(paths, "load-file") if t.chance(2, 3, "load-other") else w.main
         if fam in GR and getattr(w, "gr_relative", False):
@@ -760,13 +776,14 @@ def op_undeclared(ctx, sysm, w, F, params, cache, famtag, t):
 CORRUPTIONS = ["syntax", "dangling", "never", "ambiguous", "objproc", "modelproc"]
 
 
-def op_corrupt_cycle(ctx, prop, sysm, w, F, params, cache, famtag, global_repo, t, wrap, shapes, entry="file"):
+def op_corrupt_cycle(ctx, prop, sysm, w, F, params, cache, famtag, global_repo, t, wrap, shapes, entry="file",
+                     force=None):
     anon = entry == "anon"
     new = new_files(w, F, cache, anon)
     cands = [f for f in new if f == F or f not in sysm.cache2] + ([F] if anon and F not in new else [])
     if not cands:
         return True
-    X = t.pick(cands, "failing-file")
+    X = t.pick(cands, "failing-file") if force is None else force[0]
     role = "main" if X == F else ("direct" if X in w.direct_imports(F) else "transitive")
     if anon:
         role += "-anon"
@@ -777,7 +794,9 @@ def op_corrupt_cycle(ctx, prop, sysm, w, F, params, cache, famtag, global_repo, 
         kinds.remove("ambiguous")
     if prop == "C28":
         kinds = [k for k in kinds if k not in ("objproc", "modelproc")]
-    kind = t.pick(kinds, "corruption")
+    kind = t.pick(kinds, "corruption") if force is None else force[1]
+    if kind not in kinds:
+        return True
     fe = w.files[X]
     xrefs = [r for r in w.refs if r.owner.file == X]
     target = None
@@ -1146,13 +1165,15 @@ RULES = {
     "C18": "W4 histories in which loads are preceded by a corruption of a drawn file of NEW(F) (role main / direct / "
            "transitive) in a drawn phase (syntax, dangling, never-resolving, ambiguous, object processor, model "
            "processor), followed by repair and reload; repository contents compared by identity with the pre-attempt "
-           "snapshot; non-trivial = the corrupted load failed",
+           "snapshot; non-trivial = the corrupted load failed. THOROUGH tier: for every generated graph, every file of the "
+           "main file's closure fails in every phase, each on a fresh system",
     "C27": "W4 histories with declared parameters (p1, p2, project_root) on drawn loads and loads with an undeclared "
            "keyword; every model created by a load must expose exactly the given mapping, cached models keep theirs; "
            "rejected loads must not read files or change repositories; non-trivial = several files read or an "
            "undeclared parameter tried",
     "C28": "W4 corruption cycles with syntax / dangling / never / ambiguous faults at a known offset of a known file "
-           "(main, direct or transitive import); filename/line/col compared with the harness's own line table",
+           "(main, direct or transitive import); filename/line/col compared with the harness's own line table. THOROUGH "
+           "tier: every file of the closure x every error kind per generated graph",
 }
 ASSUMPTIONS = {
     "C17": ["no name is defined by two different direct imports of one file (the statement does not order them)",
